@@ -464,6 +464,8 @@ class World(object):
             t = op.get("t")
             if t == "inf":
                 t = np.inf
+            elif t == "-inf":
+                t = -np.inf
             try:
                 if op.get("no_monitor"):
                     sysm.integrate(t=t, callback=cbs if cbs else None, events=evs)
